@@ -186,6 +186,8 @@ class Check:
             key = v["unit"]
             if "/shape[" in v["oid"]:
                 key = v["oid"].split("/shape[")[0]  # forwarding units: one replay per method
+            if "/guard/" in v["oid"]:
+                key = v["oid"].split("/guard/")[0]  # guard units: one replay per function
             if "/frame-" in v["oid"]:
                 key = v["oid"].split("/frame-")[0]  # frame units: one replay per function
             if key in seen_units:
